@@ -142,6 +142,21 @@ theorem no_escape_to_dict {α κ ν} (eq : κ → κ → Bool) (key : α → Exc
   ⟨Op.escapes_nil _ (toDictO_noEsc eq key elem), fun s x e h => by simp [Op.handle, toDictO, dictStep, h],
    fun s x k e h1 h2 => by simp [Op.handle, toDictO, dictStep, h1, h2]⟩
 
+/-- `to_set` / `to_dict` **as repaired** (`fixes/C06_toset_todict_unhashable.patch`): the `TypeError` Python raises for an
+unhashable element / key is not a user callback's, but it is delivered the same way — never into the emitter -/
+theorem no_escape_hashing {α κ ν} (h : α → Bool) (eq : α → α → Bool) (hk : κ → Bool) (eqk : κ → κ → Bool)
+    (key : α → Except Err κ) (elem : α → Except Err ν) :
+    (∀ lag raw, (toSetHO h eq).escapes lag raw = [] ∧ (toDictHO hk eqk key elem).escapes lag raw = [])
+    ∧ (∀ s x, h x = false → ((toSetHO h eq).handle s (.next x)).calls = [.error "TypeError"])
+    ∧ (∀ s x k v, key x = .ok k → elem x = .ok v → hk k = false →
+        ((toDictHO hk eqk key elem).handle s (.next x)).calls = [.error "TypeError"]) := by
+  refine ⟨fun lag raw => ⟨Op.escapes_nil _ (Op.NoEsc.of_handlers (fun s x => ?_) (fun _ _ => rfl) (fun _ => rfl)) lag raw,
+      Op.escapes_nil _ (Op.NoEsc.of_handlers (fun s x => ?_) (fun _ _ => rfl) (fun _ => rfl)) lag raw⟩, ?_, ?_⟩
+  · simp only [toSetHO]; cases setStepH h eq s x <;> rfl
+  · simp only [toDictHO]; cases dictStepH hk eqk key elem s x <;> rfl
+  · intro s x hx; simp [Op.handle, toSetHO, setStepH, hx]
+  · intro s x k v h1 h2 h3; simp [Op.handle, toDictHO, dictStepH, h1, h2, h3]
+
 /-- `contains` (= `filter(comparer(·, value)) | some()`): the comparer -/
 theorem no_escape_contains {α} (v : α) (cmp : α → α → Except Err Bool) :
     (∀ lag raw, (containsO v cmp).escapes lag raw = [])
